@@ -160,6 +160,14 @@ Definition exec_family : list string :=
    "posix_spawn"; "posix_spawnp"; "fork"; "vfork"; "clone"; "clone3"; "_Fork"].
 Definition no_return_family : list string :=
   ["exit"; "_exit"; "_Exit"; "abort"; "quick_exit"; "longjmp"; "siglongjmp"; "pthread_exit"; "raise"; "kill"; "pthread_kill"; "__assert_fail"].
+(** libc interfaces that answer through one static object shared by the whole process (the caller may be holding such an answer when
+    it calls exec, e.g. [execv(pw->pw_shell, ...)] after [getpwuid]), or keep a hidden cursor: the reentrant twins are what the library may use *)
+Definition static_result_family : list string :=
+  ["getpwuid"; "getpwnam"; "getpwent"; "getgrgid"; "getgrnam"; "getgrent"; "getspnam"; "getlogin"; "cuserid"; "ttyname"; "ctermid"; "ptsname";
+   "localtime"; "gmtime"; "asctime"; "ctime"; "strtok"; "strerror"; "strsignal"; "gethostbyname"; "gethostbyaddr"; "gethostent";
+   "getservbyname"; "getservbyport"; "getprotobyname"; "getnetbyname"; "inet_ntoa"; "ether_ntoa"; "readdir"; "getutent"; "getutid"; "getutline";
+   "getmntent"; "basename"; "dirname"; "tmpnam"; "tempnam"; "crypt"; "ecvt"; "fcvt"; "l64a"; "getdate"; "nl_langinfo"; "setlocale";
+   "getpass"; "rand"; "srand"; "random"; "srandom"; "drand48"; "lrand48"; "mrand48"; "hsearch"; "hcreate"].
 Definition state_mutators : list string :=
   ["setenv"; "putenv"; "unsetenv"; "clearenv"; "chdir"; "fchdir"; "chroot"; "umask"; "sigprocmask"; "pthread_sigmask"; "signal"; "sigaction";
    "sigaltstack"; "setuid"; "seteuid"; "setreuid"; "setresuid"; "setgid"; "setegid"; "setregid"; "setresgid"; "setsid"; "setpgid";
